@@ -646,6 +646,8 @@ func runC06(w *eng.W) {
 		for _, pair := range [][2]string{
 			{c + " ? .5 : 3", c + "?.5:3"}, {c + " ? 3 : .5", c + "?3:.5"}, {c + " ?? .5", c + "??.5"}, {c + " && .5", c + "&&.5"}, {c + " || .5", c + "||.5"},
 			{"!" + c + " ? .5 : .25", "!" + c + "?.5:.25"}, {c + " ? 'T' : 'F'", c + "?'T':'F'"}, {c + " ? (.5) : [.5]", c + "?(.5):[.5]"},
+			// a conditional laid out over several lines (the operators begin the continuation lines)
+			{c + " ? 'T' : 'F'", c + "\n  ? 'T'\n  : 'F'"}, {c + " ? .5 : 3", c + "\r\n?\r\n.5\r\n:\r\n3"}, {c + " && .5", c + "\n  && .5"}, {c + " || .5", c + "\n|| .5"}, {c + " ?? .5", c + "\n\t?? .5"},
 		} {
 			if !selVals[ci].NegOK && strings.HasPrefix(pair[0], "!") {
 				continue
